@@ -267,6 +267,11 @@ Proof. intros mode h fuel delta eps mx x0 xn k E.
   destruct k as [|j]; [lia|]. rewrite C10_steps_last. apply C10_fista_step_range. Qed.
 (* ---- the code BEFORE the loops: start point and step parameter as functions of the options (None = raises), for every combination of
    given / missing option value, start point and tomography *)
+(* the validation raises before the loops: all three optimize methods run iff the loss provides values AND gradients *)
+Theorem gen_precondition_eq : forall v gr,
+  gen_bt_precondition v gr = C10_precondition v gr /\ gen_mom_precondition v gr = C10_precondition v gr /\
+  gen_fista_precondition v gr = C10_precondition v gr.
+Proof. intros [] []; repeat split; reflexivity. Qed.
 Theorem gen_start_eq : forall vs origin,
   gen_bt_start F vs origin = C10_start F vs origin /\ gen_mom_start F vs origin = C10_start F vs origin /\
   gen_fista_start F vs origin = C10_start F vs origin.
@@ -348,6 +353,7 @@ Print Assumptions gen_mom_optimize_in_range.
 Print Assumptions gen_fista_body_step.
 Print Assumptions gen_fista_optimize_steps.
 Print Assumptions gen_fista_optimize_in_range.
+Print Assumptions gen_precondition_eq.
 Print Assumptions gen_start_eq.
 Print Assumptions gen_bt_mu_eq.
 Print Assumptions gen_mom_gamma_eq.
